@@ -463,6 +463,10 @@ func ChildLoad(dir, seqFile string) int {
 	walk(nil, s.news.ThreadedNews.Categories)
 	for _, a := range s.accts.List() {
 		st.Accounts[a.Login] = AccountState{Name: a.Name, Access: hex.EncodeToString(a.Access[:]), Hash: a.Password}
+		// an account must be found under the login it carries (that is how logins and edits address it)
+		if g := s.accts.Get(a.Login); g == nil || g.Login != a.Login {
+			st.Error = fmt.Sprintf("accounts: the account listed with login %q cannot be looked up by that login after the restart", a.Login)
+		}
 	}
 	for _, ip := range seq.IPs {
 		if b, until := s.bans.IsBanned(ip); b {
